@@ -1282,5 +1282,8 @@ def run(repo, chk, tier):
     check_recursions(repo, chk)
     check_layout(repo, chk)
     check_cache_and_lazy(repo, chk)
+    from .c18_copy import check_copy_isolation
+
+    check_copy_isolation(repo, chk)
     chk.info("not decided (value level): batch arithmetic of _data_split (range(0, n, b), min), np.save/np.load/np.savez fidelity (save_data/load_data), "
              "LazyCall evaluation order, root_io")
